@@ -199,7 +199,8 @@ class Guard:
         roles: list[str] = list(subject.roles or [])
         if self.role_resolver is not None:
             try:
-                roles = await maybe_await(self.role_resolver.expand(roles))
+                # the resolver gets its own list: if it edits it and then fails, `roles` is still the subject's
+                roles = await maybe_await(self.role_resolver.expand(list(roles)))
             except Exception:
                 logger.exception("RBACX: role resolver failed", exc_info=True)
         env: dict[str, Any] = {
